@@ -2131,3 +2131,230 @@ Lemma switches_coherent_now :
   ssw_invis_written save_switches_now = ssw_invis_read save_switches_now
   /\ (ssw_list_eq_origins save_switches_now = true -> ssw_origins_written save_switches_now = true).
 Proof. split; [reflexivity|]. cbn. intros H. first [exact H|reflexivity|discriminate]. Qed.
+
+(* ================================================================= *)
+(*  every flow survives (C10 / C02)                                   *)
+(* ================================================================= *)
+Section AllFlows.
+Variable sw : save_switches.
+Variable root : container.
+
+(* Story-level view: the flow registered under a name *)
+Definition flow_of (s : sstate) (k : text) : option flow :=
+  if text_eqb k (fl_name (ss_flow s)) then Some (ss_flow s)
+  else match ss_named s with Some nf => assoc k nf | None => None end.
+
+Definition named_of (s : sstate) : list (text * flow) :=
+  match ss_named s with Some nf => nf | None => [] end.
+
+(* no stale entry under the current flow's own name (the D12 situation) *)
+Definition no_alias_entry_b (s : sstate) : bool :=
+  negb (assoc_mem (fl_name (ss_flow s)) (named_of s)) && keys_nodup_b (named_of s).
+
+Lemma flows_as_saved_no_alias s : no_alias_entry_b s = true ->
+  flows_as_saved sw root s
+  = (fl_name (ss_flow s), norm_flow sw root (fl_cs (ss_flow s)) (fl_name (ss_flow s)) (ss_flow s))
+    :: map (fun kf : text * flow => (fst kf, norm_flow sw root (fl_cs (ss_flow s)) (fst kf) (snd kf))) (named_of s).
+Proof.
+  unfold no_alias_entry_b, flows_as_saved. fold (named_of s). intros H. apply andb_true_iff in H as [Hc Hnd].
+  apply negb_true_iff in Hc. apply assoc_mem_false_assoc in Hc.
+  rewrite (fold_assoc_set_keyed (fun kf : text * flow => fst kf)
+             (fun kf : text * flow => norm_flow sw root (fl_cs (ss_flow s)) (fst kf) (snd kf)) (named_of s)).
+  - reflexivity.
+  - clear Hc. induction (named_of s) as [|[k f] l IH]; [reflexivity|].
+    apply keys_nodup_tail in Hnd as [Hk Hl]. cbn [map fst keys_nodup_b]. rewrite (IH Hl), andb_true_r.
+    apply negb_true_iff. unfold assoc_mem. rewrite (assoc_map_none (fun _ => tt)); [reflexivity|exact Hk].
+  - intros [k f] Hin. cbn [fst assoc]. destruct (text_eqb k (fl_name (ss_flow s))) eqn:E; [|reflexivity].
+    apply text_eqb_eq in E. subst. exfalso. exact (assoc_none_not_in _ _ Hc _ Hin).
+Qed.
+
+Lemma assoc_map_val {A B} (g : text -> A -> B) k (l : list (text * A)) :
+  assoc k (map (fun kf : text * A => (fst kf, g (fst kf) (snd kf))) l) = option_map (g k) (assoc k l).
+Proof.
+  induction l as [|[k' a] l IH]; cbn; [reflexivity|]. destruct (text_eqb k k') eqn:E; [|exact IH].
+  apply text_eqb_eq in E. now subst.
+Qed.
+
+Lemma assoc_remove_map_fresh {A B} (g : text * A -> text * B) k (l : list (text * A)) :
+  (forall x, fst (g x) = fst x) -> assoc k l = None -> assoc_remove k (map g l) = map g l.
+Proof.
+  intros Hg H. apply assoc_remove_none. induction l as [|[k' a] l IH]; [reflexivity|].
+  cbn in H |- *. pose proof (Hg (k', a)) as E. destruct (g (k', a)) as [k2 b]. cbn in E. subst k2.
+  destruct (text_eqb k k'); [discriminate|now apply IH].
+Qed.
+
+Theorem all_flows_preserved_lemma t s : no_alias_entry_b s = true ->
+  forall k f, flow_of s k = Some f ->
+  flow_of (norm_sstate sw root t s) k = Some (norm_flow sw root (fl_cs (ss_flow s)) k f).
+Proof.
+  intros Hna k f Hk. pose proof (flows_as_saved_no_alias s Hna) as Hfl.
+  unfold no_alias_entry_b in Hna. apply andb_true_iff in Hna as [Hc Hnd].
+  apply negb_true_iff in Hc. apply assoc_mem_false_assoc in Hc.
+  set (cur := fl_name (ss_flow s)) in *. set (ccs := fl_cs (ss_flow s)) in *.
+  unfold flow_of in *. fold cur in Hk.
+  unfold norm_sstate. fold cur. rewrite Hfl.
+  destruct (named_of s) as [|kf0 rest] eqn:En.
+  - (* a single flow *)
+    cbn [map length Nat.eqb ss_flow ss_named]. cbn [fl_name norm_flow].
+    destruct (text_eqb k cur) eqn:E.
+    + apply text_eqb_eq in E. subst k. inversion Hk; subst f. reflexivity.
+    + unfold named_of in En. destruct (ss_named s) as [nf|]; [subst nf; discriminate|discriminate].
+  - cbn [map length Nat.eqb assoc]. rewrite text_eqb_refl. cbn [ss_flow ss_named fl_name norm_flow].
+    rewrite assoc_remove_head.
+    destruct (text_eqb k cur) eqn:E.
+    + apply text_eqb_eq in E. subst k. inversion Hk; subst f. reflexivity.
+    + change ((fst kf0, norm_flow sw root ccs (fst kf0) (snd kf0))
+               :: map (fun kf : text * flow => (fst kf, norm_flow sw root ccs (fst kf) (snd kf))) rest)
+        with (map (fun kf : text * flow => (fst kf, norm_flow sw root ccs (fst kf) (snd kf))) (kf0 :: rest)).
+      rewrite (assoc_remove_map_fresh (fun kf : text * flow => (fst kf, norm_flow sw root ccs (fst kf) (snd kf))))
+        by (try reflexivity; exact Hc).
+      rewrite (assoc_map_val (fun k f => norm_flow sw root ccs k f)).
+      unfold named_of in En. destruct (ss_named s) as [nf|]; [|discriminate]. subst nf. now rewrite Hk.
+Qed.
+
+End AllFlows.
+
+(* ================================================================= *)
+(*  what the host can read right after a load                         *)
+(* ================================================================= *)
+Section Immediate.
+Variable sw : save_switches.
+Variable root : container.
+
+Lemma norm_sstate_current_flow t s : no_alias_entry_b s = true ->
+  ss_flow (norm_sstate sw root t s)
+  = norm_flow sw root (fl_cs (ss_flow s)) (fl_name (ss_flow s)) (ss_flow s).
+Proof.
+  intros Hna. pose proof (all_flows_preserved_lemma sw root t s Hna (fl_name (ss_flow s)) (ss_flow s)) as H.
+  unfold flow_of in H. rewrite text_eqb_refl in H. specialize (H eq_refl).
+  rewrite norm_sstate_flow_name, text_eqb_refl in H. now inversion H.
+Qed.
+
+Lemma last_opt_map {A B} (f : A -> B) l : last_opt (map f l) = option_map f (last_opt l).
+Proof.
+  unfold last_opt. induction l as [|x l IH]; [reflexivity|]. cbn [map].
+  destruct l as [|y l]; [reflexivity|]. exact IH.
+Qed.
+
+(* the current pointer: the same position; a null pointer stays null *)
+Lemma cur_pointer_norm cs :
+  (do e <- cs_cur_element (norm_callstack sw root cs); Ok (el_ptr e))
+  = (do e <- cs_cur_element cs; Ok (norm_ptr (el_ptr e))).
+Proof.
+  unfold cs_cur_element, cs_cur_thread, norm_callstack. cbn [cs_threads].
+  rewrite last_opt_map. destruct (last_opt (cs_threads cs)) as [t|]; [|reflexivity].
+  cbn [option_map unwrap_or_panic bind]. unfold norm_thread. cbn [th_cs]. rewrite last_opt_map.
+  destruct (last_opt (th_cs t)); reflexivity.
+Qed.
+
+Lemma norm_choice_fields ncs c : ch_thread c <> None ->
+  ch_text (norm_choice sw root ncs c) = ch_text c
+  /\ ch_tags (norm_choice sw root ncs c) = ch_tags c
+  /\ ch_index (norm_choice sw root ncs c) = ch_index c
+  /\ ch_target (norm_choice sw root ncs c) = ch_target c
+  /\ ch_source (norm_choice sw root ncs c) = ch_source c
+  /\ ch_invisible (norm_choice sw root ncs c) = ssw_invis_written sw && ssw_invis_read sw && ch_invisible c.
+Proof. unfold norm_choice. destruct (ch_thread c); [|congruence]. intros _. repeat split. Qed.
+
+(* Right after a load the restored story shows what the original showed: every field
+   the host getters read (output stream -> text and tags, pending choices and their
+   visibility, the current pointer -> can_continue, counters, seeds) is the original's,
+   values up to [norm_value].  Errors and warnings are the target's own. *)
+Theorem restored_state_immediate_lemma t s :
+  no_alias_entry_b s = true ->
+  forallb (fun c => match ch_thread c with Some _ => true | None => false end) (fl_choices (ss_flow s)) = true ->
+  let s' := norm_sstate sw root t s in
+  fl_name (ss_flow s') = fl_name (ss_flow s)
+  /\ fl_out (ss_flow s') = map (norm_obj sw) (fl_out (ss_flow s))
+  /\ map ch_text (fl_choices (ss_flow s')) = map ch_text (fl_choices (ss_flow s))
+  /\ map ch_tags (fl_choices (ss_flow s')) = map ch_tags (fl_choices (ss_flow s))
+  /\ map ch_invisible (fl_choices (ss_flow s'))
+     = map (fun c => ssw_invis_written sw && ssw_invis_read sw && ch_invisible c) (fl_choices (ss_flow s))
+  /\ (do e <- cs_cur_element (fl_cs (ss_flow s')); Ok (el_ptr e))
+     = (do e <- cs_cur_element (fl_cs (ss_flow s)); Ok (norm_ptr (el_ptr e)))
+  /\ ss_eval s' = map (norm_obj sw) (ss_eval s)
+  /\ vs_globals (ss_vars s') = norm_globals sw (vs_defaults (ss_vars t)) (vs_globals (ss_vars s))
+  /\ ss_visits s' = ss_visits s /\ ss_turns s' = ss_turns s /\ ss_turn s' = ss_turn s
+  /\ ss_seed s' = ss_seed s /\ ss_prev_random s' = ss_prev_random s.
+Proof.
+  intros Hna Hth s'. subst s'. rewrite (norm_sstate_current_flow t s Hna).
+  assert (Hrest : forall A (f : sstate -> A) (g : sstate -> A),
+            (forall fl nm, f (mkSstate fl (ss_safe_exit t)
+               (mkVarstate (norm_globals sw (vs_defaults (ss_vars t)) (vs_globals (ss_vars s)))
+                           (vs_defaults (ss_vars t)) (vs_batch (ss_vars t)) (vs_changed (ss_vars t)) (vs_patch (ss_vars t)))
+               (map (norm_obj sw) (ss_eval s)) (ss_errors t) (ss_warnings t) (ss_patch t) nm
+               (if ptr_is_null (ss_diverted s) then ss_diverted t else ss_diverted s)
+               (ss_visits s) (ss_turns s) (ss_turn s) (ss_seed s) (ss_prev_random s)) = g s) ->
+            f (norm_sstate sw root t s) = g s).
+  { intros A f g H. unfold norm_sstate. destruct (Nat.eqb _ 1); [apply H|]. destruct (assoc _ _); apply H. }
+  assert (Hsrc : fl_alias_cs (ss_flow s) = true \/ fl_alias_cs (ss_flow s) = false) by (destruct (fl_alias_cs (ss_flow s)); auto).
+  unfold norm_flow. cbn [fl_name fl_out fl_choices fl_cs].
+  repeat split.
+  - rewrite map_map. apply map_ext_in. intros c Hin.
+    apply norm_choice_fields. pose proof (forallb_In _ _ _ Hth Hin) as H. cbn beta in H. intros E. rewrite E in H. discriminate.
+  - rewrite map_map. apply map_ext_in. intros c Hin.
+    apply norm_choice_fields. pose proof (forallb_In _ _ _ Hth Hin) as H. cbn beta in H. intros E. rewrite E in H. discriminate.
+  - rewrite map_map. apply map_ext_in. intros c Hin.
+    apply norm_choice_fields. pose proof (forallb_In _ _ _ Hth Hin) as H. cbn beta in H. intros E. rewrite E in H. discriminate.
+  - destruct (fl_alias_cs (ss_flow s)); apply cur_pointer_norm.
+  - apply (Hrest _ ss_eval (fun s => map (norm_obj sw) (ss_eval s))). reflexivity.
+  - apply (Hrest _ (fun x => vs_globals (ss_vars x))
+                   (fun s => norm_globals sw (vs_defaults (ss_vars t)) (vs_globals (ss_vars s)))). reflexivity.
+  - apply (Hrest _ ss_visits ss_visits). reflexivity.
+  - apply (Hrest _ ss_turns ss_turns). reflexivity.
+  - apply (Hrest _ ss_turn ss_turn). reflexivity.
+  - apply (Hrest _ ss_seed ss_seed). reflexivity.
+  - apply (Hrest _ ss_prev_random ss_prev_random). reflexivity.
+Qed.
+
+End Immediate.
+
+(* ---------- statements for Props (combining the above with save_load_norm) ---------- *)
+Theorem save_preserves_all_flows_lemma panics sw t w :
+  wf_world_b w = true -> no_alias_entry_b (w_state w) = true ->
+  root_of t = root_of w ->
+  vs_defaults (ss_vars (w_state t)) = vs_defaults (ss_vars (w_state w)) ->
+  exists j w', write_state panics sw w = Ok j
+    /\ load_state panics sw t j = (OOk tt, w')
+    /\ forall k f, flow_of (w_state w) k = Some f ->
+         flow_of (w_state w') k = Some (norm_flow sw (root_of w) (fl_cs (ss_flow (w_state w))) k f).
+Proof.
+  intros Hwf Hna Hroot Hdef.
+  destruct (save_load_norm_lemma panics sw t w Hwf Hroot Hdef) as (j & Hw & Hl).
+  exists j, (norm_save sw (root_of w) t w). split; [exact Hw|]. split; [exact Hl|].
+  intros k f Hk. unfold norm_save. rewrite <- set_st_eq, w_state_set_st.
+  now apply all_flows_preserved_lemma.
+Qed.
+
+Theorem restored_state_immediate_partial_lemma panics sw t w :
+  wf_world_b w = true -> no_alias_entry_b (w_state w) = true ->
+  root_of t = root_of w ->
+  vs_defaults (ss_vars (w_state t)) = vs_defaults (ss_vars (w_state w)) ->
+  exists j w', write_state panics sw w = Ok j
+    /\ load_state panics sw t j = (OOk tt, w')
+    /\ let s := w_state w in let s' := w_state w' in
+       fl_name (ss_flow s') = fl_name (ss_flow s)
+       /\ fl_out (ss_flow s') = map (norm_obj sw) (fl_out (ss_flow s))
+       /\ map ch_text (fl_choices (ss_flow s')) = map ch_text (fl_choices (ss_flow s))
+       /\ map ch_tags (fl_choices (ss_flow s')) = map ch_tags (fl_choices (ss_flow s))
+       /\ map ch_invisible (fl_choices (ss_flow s'))
+          = map (fun c => ssw_invis_written sw && ssw_invis_read sw && ch_invisible c) (fl_choices (ss_flow s))
+       /\ (do e <- cs_cur_element (fl_cs (ss_flow s')); Ok (el_ptr e))
+          = (do e <- cs_cur_element (fl_cs (ss_flow s)); Ok (norm_ptr (el_ptr e)))
+       /\ ss_eval s' = map (norm_obj sw) (ss_eval s)
+       /\ vs_globals (ss_vars s') = norm_globals sw (vs_defaults (ss_vars (w_state t))) (vs_globals (ss_vars s))
+       /\ ss_visits s' = ss_visits s /\ ss_turns s' = ss_turns s /\ ss_turn s' = ss_turn s
+       /\ ss_seed s' = ss_seed s /\ ss_prev_random s' = ss_prev_random s.
+Proof.
+  intros Hwf Hna Hroot Hdef.
+  destruct (save_load_norm_lemma panics sw t w Hwf Hroot Hdef) as (j & Hw & Hl).
+  exists j, (norm_save sw (root_of w) t w). split; [exact Hw|]. split; [exact Hl|].
+  unfold norm_save. rewrite <- set_st_eq, w_state_set_st.
+  apply restored_state_immediate_lemma; [assumption|].
+  (* every pending choice has its thread: part of wf *)
+  unfold wf_world_b, wf_sstate_b in Hwf.
+  do 10 (apply andb_true_iff in Hwf as [Hwf _]).
+  unfold wf_flow_b in Hwf. apply andb_true_iff in Hwf as [Hwf _]. apply andb_true_iff in Hwf as [_ Hch].
+  apply forallb_forall. intros c Hin. rewrite forallb_forall in Hch. specialize (Hch c Hin).
+  unfold wf_choice_b in Hch. destruct (ch_thread c); [reflexivity|discriminate].
+Qed.
